@@ -431,13 +431,15 @@ def build_cases(ctx):
                 cases.append(make_single(v, n, "enum%d" % depth))
             if depth == 1 or rng.random() < 0.15:
                 cases.append(make_single(v, None, "enum%d-default" % depth))
+            if depth == 1 or rng.random() < 0.15:       # dimension beyond the value's depth: atoms are the elements
+                cases.append(make_single(v, depth + 1, "enum%d-deeper" % depth))
     # every value of depth 2 inside an outer and an inner splitter (random partner), both operand positions
     n_pairs2 = ctx.budget(1, 4)
     for v in all_uniform(2):
         for _ in range(n_pairs2):
             cases.append(make_pair(rng, v, rng.choice([1, 2, 2]), "enum2", nested_left=rng.random() < 0.7))
     # depth 3: sampled
-    for _ in range(ctx.budget(500, 12000)):
+    for _ in range(ctx.budget(500, 8000)):
         v, kind = gen_depth3(rng) if rng.random() < 0.93 else gen_mixed(rng)
         n = rng.choice([1, 2, 3, 3])
         if rng.random() < 0.55:
@@ -524,7 +526,7 @@ def run(ctx):
         obs, ind = state_run(c)
         recs.append((c, "state", obs, ind))
     # --- end to end on a sample (corpus first, then a seeded sample biased to non-trivial cases)
-    n_e2e = ctx.budget(70, 700)
+    n_e2e = ctx.budget(70, 500)
     cand = [c for c in cases if in_quantifier(c)]
     corpus_n = len(ctx.corpus())
     pick = cand[:corpus_n]
